@@ -11,7 +11,8 @@ RULE = ("total sample counts n: every n in 2..24 (quick) / 2..60 (thorough) plus
         "1100..1700 (quick) / n = 1500, 1023, 1024, 1025, 2048, 4097, 9999 and random n up to 6000 (thorough): the range "
         "where products of n ratios and binomial-sized quantities leave the double range; for each n <= 400 every k in 2..n, both "
         "prior distributions (lognorm, gamma); a case is one (n, distribution) table; non-trivial when n >= 3 "
-        "(the recursion over ancestors is exercised)")
+        "(the recursion over ancestors is exercised); plus approximate tables (approx_prior_size 10, 100, 1000 in a private "
+        "XDG_CACHE_HOME): rows from the cold (in-memory) and warm (cached) lookup table compared bit for bit")
 ASSUME = ["the Python exact-rational reference (closed-form level weights) is tied to the Coq model by an exact "
           "comparison with the model evaluated on Q inside Coq for small n on every run, and to the Kingman jump "
           "chain by C14_kingman_bounded (n <= 24) and by a Python re-enumeration (n <= 9) on every run",
@@ -161,6 +162,62 @@ def pick_big(ctx):
                                 rng.randint(2000, 6000), 4097, 9999]]
 
 
+def approx_cold_warm(ctx, sizes):
+    """approximate priors: the lookup table for `size` tips, computed in memory on the first (cold) call and read
+    back from the cache file afterwards (warm), must give bit-identical rows; the table itself must hold the exact
+    variances of size+1 tips; the MRCA row of an approximate table is exact.  Private XDG_CACHE_HOME."""
+    import os
+    import shutil
+    import logging
+    import numpy as np
+    import tsdate.prior as P
+    logging.getLogger().setLevel(logging.ERROR)
+    d = os.path.join(ctx.work, "xdg_c14")
+    old = os.environ.get("XDG_CACHE_HOME")
+    try:
+        for size in sizes:
+            shutil.rmtree(d, ignore_errors=True)
+            os.makedirs(d)
+            os.environ["XDG_CACHE_HOME"] = d
+            distr = ctx.rng.choice(["lognorm", "gamma"])
+            n = ctx.rng.choice([2, 3, 5, 8, 20, 57, size, size + 1, 3 * size])
+            rp = {"n": n, "distr": distr, "approx_prior_size": size}
+            try:
+                with np.errstate(all="ignore"):
+                    cold = P.ConditionalCoalescentTimes(size, distr)
+                    cold.add(n, approximate=True)
+                    warm = P.ConditionalCoalescentTimes(size, distr)
+                    warm.add(n, approximate=True)
+                    again = P.ConditionalCoalescentTimes(size, distr)
+                    again.add(n, approximate=True)
+            except Exception as e:
+                ctx.oracle_fail("exception", "approximate prior size=%d n=%d raised %s: %s" % (size, n, type(e).__name__, str(e)[:200]), rp)
+                continue
+            ctx.case({"approx_prior_size": size, "n": n, "distr": distr, "row[n]": [float(x) for x in cold[n][n]]},
+                     nontrivial=True, kind="approximate/cold-vs-warm")
+            if not (np.array_equal(cold.approx_priors, warm.approx_priors) and np.array_equal(cold[n], warm[n], equal_nan=True)
+                    and np.array_equal(warm[n], again[n], equal_nan=True)):
+                bad = int(np.sum(cold.approx_priors != warm.approx_priors)) if cold.approx_priors.shape == warm.approx_priors.shape else -1
+                ctx.oracle_fail("approx-cold-warm", "approx_prior_size=%d, n=%d (%s): rows from the freshly computed lookup table differ from "
+                                "rows from the cached table (%d table entries differ)" % (size, n, distr, bad), rp)
+                continue
+            exact = K.impl_ccv(size + 1)
+            tab = cold.approx_priors
+            if not (tab.shape == (size, 2) and all(tab[i, 1] == exact[i + 1] for i in range(1, size))
+                    and all(tab[i, 0] == (i + 1) / size for i in range(1, size))):
+                ctx.oracle_fail("approx-table", "lookup table for %d tips is not (k/size, conditional_coalescent_variance(size+1)[k])" % size, rp)
+                continue
+            if n >= 2:
+                mrca_v = cold[n][n][3]
+                if not K.close(mrca_v, K.impl_tau_var_mrca(n), 0.0):
+                    ctx.oracle_fail("approx-mrca", "approximate table n=%d: MRCA variance %r is not tau_var_mrca(n)" % (n, mrca_v), rp)
+    finally:
+        if old is None:
+            os.environ.pop("XDG_CACHE_HOME", None)
+        else:
+            os.environ["XDG_CACHE_HOME"] = old
+
+
 def kingman_reference_check(ctx, nmax):
     """Python re-enumeration of the Kingman chain against the closed-form reference (exact)
     and against the implementation"""
@@ -207,6 +264,7 @@ def run(ctx, model_ok=True):
         if not ok:
             break
     kingman_reference_check(ctx, ctx.n(9, 11))
+    approx_cold_warm(ctx, [10, 100, 1000])
     if not ctx.oracle_fails:
         for n, distrs in pick_big(ctx):
             if not oracle_big(ctx, n, distrs):
